@@ -48,3 +48,6 @@ try:
 finally:
     sh('git -C /repo worktree remove --force %s' % wt)
     shutil.rmtree(wt, ignore_errors=True)
+    # scratch, evidence and regenerated files of the trial (harness/lib.py keeps them apart from the real check's)
+    alt = os.path.join('/verif/_build/alt', re.sub(r'\W+', '_', os.path.realpath(wt)).strip('_'))
+    shutil.rmtree(alt, ignore_errors=True)
